@@ -22,11 +22,11 @@ def main():
     wrappers = {}
 
     def wrapper(step):
-        key = (step["f"], step.get("kind", "function"), tuple(step.get("ignore") or ()), bool(step.get("compress")))
+        key = (step["f"], step.get("kind", "function"), tuple(step.get("ignore") or ()), bool(step.get("compress")), step.get("frozen"), step.get("store", ""))
         if key not in wrappers:
-            ck = bool(step.get("compress"))
+            ck = (bool(step.get("compress")), step.get("store", ""))
             if ck not in mems:
-                mems[ck] = joblib.Memory(prog["root"], verbose=0, compress=ck)
+                mems[ck] = joblib.Memory(prog["root"] + step.get("store", ""), verbose=0, compress=ck[0])
             kind = step.get("kind", "function")
             if kind == "method":
                 target = getattr(sigmod, "INST_" + step["f"]).m
